@@ -474,6 +474,7 @@ def c13_rules(chk, prog):
     n = ABS.report(chk, res, ("IDX", "DIVZ"), rule_map={"IDX": "PAD", "DIVZ": "PAD"}, fn_filter=lambda o: o["fn"] == roles.padder)
     chk.floor("padding-writer bounds obligations", n, 1)
     emitter_shape_rules(chk, prog, roles, want=("DEST", "GRID"), rule="GRID")
+    PL.encoder_idempotence_rule(chk, prog, roles)
     setter_mode_rule(chk, prog)
     counting_mode_rule(chk, prog, roles)
     division_sites_rule(chk, prog, roles)
